@@ -264,6 +264,10 @@ func (s *Scenario) Explore(opt Options) (Stats, []Violation) {
 		}
 	}
 	classify(nil, root.InitDiscs, nil)
+	base := root.W.MakeBase()
+	for _, e := range execs {
+		e.W.SetBase(base)
+	}
 	rk := root.Key(s.KeyTimeNs)
 	seen := map[[32]byte]bool{rk: true}
 	frontier := []*node{{path: rootPath, snap: root.W.Snapshot(), m: root.M.Clone(), aux: cloneAux(root.Aux), key: rk}}
@@ -291,6 +295,9 @@ func (s *Scenario) Explore(opt Options) (Stats, []Violation) {
 		var next int64
 		var mu sync.Mutex
 		timedOut := false
+		// winner[key] = smallest job index that reached key in this level; only (current) winners
+		// keep a snapshot, so duplicate successors cost no memory and the outcome is deterministic
+		winner := map[[32]byte]int64{}
 		for wi := range execs {
 			wg.Add(1)
 			go func(e *Exec) {
@@ -316,9 +323,20 @@ func (s *Scenario) Explore(opt Options) (Stats, []Violation) {
 					r := result{job: j, obs: obs, discs: discs}
 					if !obs.Halted {
 						r.key = e.Key(s.KeyTimeNs)
-						r.snap = e.W.Snapshot()
-						r.m = e.M
-						r.aux = e.Aux
+						take := false
+						if !seen[r.key] { // seen is only written between levels
+							mu.Lock()
+							if wj, ok := winner[r.key]; !ok || ji < wj {
+								winner[r.key] = ji
+								take = true
+							}
+							mu.Unlock()
+						}
+						if take {
+							r.snap = e.W.Snapshot()
+							r.m = e.M
+							r.aux = e.Aux
+						}
 					}
 					results[ji] = r
 				}
@@ -330,8 +348,12 @@ func (s *Scenario) Explore(opt Options) (Stats, []Violation) {
 			break
 		}
 		var nextFrontier []*node
-		for _, r := range results {
+		for ji, r := range results {
 			p := frontier[r.job.parent]
+			if !r.obs.Halted && !seen[r.key] && winner[r.key] != int64(ji) {
+				r.snap, r.m, r.aux = nil, nil, nil
+				results[ji].snap = nil
+			}
 			path := append(append([]int{}, p.path...), r.job.act)
 			st.Transitions++
 			st.Blocks += r.obs.Blocks
@@ -357,7 +379,7 @@ func (s *Scenario) Explore(opt Options) (Stats, []Violation) {
 				st.DeadStates++
 				continue
 			}
-			if seen[r.key] {
+			if seen[r.key] || winner[r.key] != int64(ji) {
 				continue
 			}
 			seen[r.key] = true
